@@ -24,19 +24,20 @@ theorem layout {c : Conv} {tl : List (Nat × List MEv)} {vol : Option String} {b
     (∀ (i : Nat) (hi : i < tl.length), ∃ off stream,
       Seq.rd b.seq (4 + 4 * i) = some (tl[i].1 % 256) ∧ Seq.rd16 b.seq (4 + 4 * i + 2) = some off ∧
       convertTrackChk c.subList.length c.macroList.length tl[i].2 = .ok stream ∧
-      At b.seq (4 + 4 * tl.length + off) stream ∧ hdrSize c tl.length ≤ 4 + 4 * tl.length + off ∧
-      (i = 0 → 4 + 4 * tl.length + off = hdrSize c tl.length)) ∧
+      At b.seq (4 + 4 * tl.length + off) stream ∧ b.trackStreams[i]? = some stream ∧
+      4 + 4 * tl.length + off = hdrSize c tl.length + ((b.trackStreams.take i).flatten).length) ∧
     (∀ (k : Nat) (hk : k < c.subList.length), ∃ off stream,
       Seq.rd16 b.seq (4 + 4 * tl.length + 2 * k) = some off ∧
       convertTrackChk c.subList.length c.macroList.length c.subList[k] = .ok stream ∧
-      At b.seq (4 + 4 * tl.length + off) stream ∧ hdrSize c tl.length ≤ 4 + 4 * tl.length + off) ∧
+      At b.seq (4 + 4 * tl.length + off) stream ∧ hdrSize c tl.length ≤ 4 + 4 * tl.length + off ∧
+      b.subStreams[k]? = some stream) ∧
     (∀ (k : Nat) (hk : k < c.macroList.length), ∃ off stream,
       Seq.rd16 b.seq (4 + 4 * tl.length + 2 * (c.subList.length + k)) = some off ∧
       convertMacroTrack c.macroList[k] = .ok stream ∧
       At b.seq (4 + 4 * tl.length + off) stream ∧ hdrSize c tl.length ≤ 4 + 4 * tl.length + off) ∧
     (∀ k : Nat, c.subList.length + c.macroList.length ≤ k → k < c.subList.length + c.macroList.length + c.usedData.length →
       Seq.rd16 b.seq (4 + 4 * tl.length + 2 * k) = some 0) := by
-  obtain ⟨ts, ss, ms, hts, hss, hms, hsz, _, _, _, _, _, hseq⟩ := assemble_ok h
+  obtain ⟨ts, ss, ms, hts, hss, hms, hsz, _, _, hbt, hbs, _, hseq⟩ := assemble_ok h
   have lts : ts.length = tl.length := by simpa using encodeStreams_length _ _ _ _ _ hts
   have lss : ss.length = c.subList.length := encodeStreams_length _ _ _ _ _ hss
   have lms : ms.length = c.macroList.length := encodeStreams_length _ _ _ _ _ hms
@@ -73,11 +74,11 @@ theorem layout {c : Conv} {tl : List (Nat × List MEv)} {vol : Option String} {b
       rw [← htS, List.getElem?_eq_getElem hit] at this
       exact Option.some.inj this
     have hoff : 4 + 4 * tl.length + off16 tS[i] (4 + 4 * tl.length) = tS[i] := off16_eq _ _ (by rw [hst]; omega) (by rw [hst]; omega)
-    refine ⟨off16 tS[i] (4 + 4 * tl.length), ts[i], by simpa using htr.1, htr.2.2, by simpa using hen, ?_, by rw [hoff, hst]; omega, ?_⟩
+    refine ⟨off16 tS[i] (4 + 4 * tl.length), ts[i], by simpa using htr.1, htr.2.2, by simpa using hen, ?_, ?_, by rw [hoff, hst, hbt]⟩
     · rw [hoff, hst, hseq', ← hH]
       have := at_of_split H (ss.flatten ++ ms.flatten) ts i his
       simpa [List.append_assoc] using this
-    · intro h0; subst h0; rw [hoff, hst]; simp
+    · rw [hbt]; exact List.getElem?_eq_getElem his
   · intro k hk
     have hk' : k < (sS ++ mS).length := by simp [lsS]; omega
     have hsl := header_slot (4 + 4 * tl.length) (volByte vol) (tl.map (·.1)) tS sS mS c.usedData.length
@@ -93,7 +94,8 @@ theorem layout {c : Conv} {tl : List (Nat × List MEv)} {vol : Option String} {b
       rw [← hsS, List.getElem?_eq_getElem hkS] at this
       exact Option.some.inj this
     have hoff : 4 + 4 * tl.length + off16 sS[k] (4 + 4 * tl.length) = sS[k] := off16_eq _ _ (by rw [hst]; omega) (by rw [hst]; omega)
-    refine ⟨off16 sS[k] (4 + 4 * tl.length), ss[k], by rw [hsl, hget], hen, ?_, by rw [hoff, hst]; omega⟩
+    refine ⟨off16 sS[k] (4 + 4 * tl.length), ss[k], by rw [hsl, hget], hen, ?_, by rw [hoff, hst]; omega,
+      by rw [hbs]; exact List.getElem?_eq_getElem hks⟩
     rw [hoff, hst, hseq']
     have := at_of_split (H ++ ts.flatten) ms.flatten ss k hks
     simpa [List.append_assoc, hH] using this
